@@ -17,7 +17,7 @@ import json
 from typing import Any
 
 from gallia.services.uds.core import service
-from gallia.services.uds.core.client import UDSClient
+from gallia.services.uds.core.client import UDSClient, UDSRequestConfig
 from gallia.services.uds.core.exception import MissingResponse, UDSException
 
 from harness import c06_doip as D
@@ -243,24 +243,27 @@ def transport_case(tk: str, cut_at: int, kind: str, tmo: float | None, cut_delay
 
 
 def client_case(tk: str, cut_at: int, kind: str, retries: int, restart_ms: int | None, cut_delay_ms: int,
-                warm: int = 0, follow_up: bool = False) -> dict[str, Any]:
+                warm: int = 0, follow_up: bool = False, via_config: bool = False) -> dict[str, Any]:
+    """via_config: the retry budget is given per request (UDSRequestConfig.max_retry, as the scanners do) on a
+    client whose own budget is 0, instead of through the constructor."""
     rec = Recorder()
+    rcfg = UDSRequestConfig(max_retry=retries) if via_config else None
 
     async def main() -> None:
         peer = Peer(rec, tk, cut_at=cut_at, kind=kind, cut_delay_ms=cut_delay_ms, restart_ms=restart_ms, warm=warm)
         with patched_connections(peer.listener):
             tr = await transport_class(tk).connect(target(tk))
-            cl = UDSClient(tr, timeout=1.0, max_retry=retries)
+            cl = UDSClient(tr, timeout=1.0, max_retry=0 if via_config else retries)
             await settle()
             for _ in range(warm):
-                await op(rec, "request", 1.0, cl.request(service.ReadDataByIdentifierRequest(0x1234)))
+                await op(rec, "request", 1.0, cl.request(service.ReadDataByIdentifierRequest(0x1234), rcfg))
             peer.cut_before_request()
             await settle()
-            await op(rec, "request", 1.0, cl.request(service.ReadDataByIdentifierRequest(0x1234)))
+            await op(rec, "request", 1.0, cl.request(service.ReadDataByIdentifierRequest(0x1234), rcfg))
             if follow_up:
                 # "the next attempt recovers": a further request once the peer accepts connections again
                 await asyncio.sleep(((restart_ms or 0) + 200) / 1000)
-                await op(rec, "request2", 1.0, cl.request(service.ReadDataByIdentifierRequest(0x1234)))
+                await op(rec, "request2", 1.0, cl.request(service.ReadDataByIdentifierRequest(0x1234), rcfg))
             await op(rec, "close", None, cl.transport.close())
             await op(rec, "close", None, cl.transport.close())
         rec.add("Final")
@@ -278,7 +281,8 @@ def client_case(tk: str, cut_at: int, kind: str, retries: int, restart_ms: int |
     window = WINDOW[tk] if kind in ("EOF", "Reset") else -1
     return {"cfg": {"ackTime": ACK[tk], "retries": retries, "expect": list(REPLY), "window": window}, "ev": ev,
             "tk": tk, "cut_at": cut_at, "kind": kind, "retries": retries, "restart": restart_ms,
-            "cut_delay": cut_delay_ms, "level": "client", "notes": notes, "warm": warm, "follow_up": follow_up}
+            "cut_delay": cut_delay_ms, "level": "client", "notes": notes, "warm": warm, "follow_up": follow_up,
+            "via_config": via_config}
 
 
 def validate(traces: list[dict[str, Any]]) -> tuple[dict[int, tuple[str, int]], list[Any]]:
@@ -329,7 +333,7 @@ def run(tier: str, seed: int) -> Report:
     seen: set[str] = set()
 
     def add(t: dict[str, Any]) -> None:
-        key = json.dumps([t["tk"], t["cfg"], t["cut_at"], t["kind"], t.get("cut_delay"), t.get("restart"), t.get("warm"), t.get("follow_up"), t["ev"]])
+        key = json.dumps([t["tk"], t["cfg"], t["cut_at"], t["kind"], t.get("cut_delay"), t.get("restart"), t.get("warm"), t.get("follow_up"), t.get("via_config"), t["ev"]])
         if key in seen:
             return
         seen.add(key)
@@ -361,6 +365,8 @@ def run(tier: str, seed: int) -> Report:
                         if kind == "Silence" and restart not in (0,):
                             continue
                         add(client_case(tk, k, kind, R, restart, 0))
+                        if R >= 1 and (tier == "thorough" or k % 6 == 0 or k <= 0):
+                            add(client_case(tk, k, kind, R, restart, 0, via_config=True))
                         if restart is not None and (tier == "thorough" or k % 6 == 0 or k <= 0):
                             add(client_case(tk, k, kind, R, restart, 0, follow_up=True))
                         if tier == "thorough":
